@@ -195,7 +195,7 @@ def _histories(shard, ctx, col, des, R, np):
             bi = list(range(n)); ki = list(range(n))
             B = blocks[0].copy() if n == 1 else blocks[bi].copy()
             K = karr[0].copy() if n == 1 else karr[ki].copy()
-            step = 0
+            step = 0; held = []
             for pos, ev in enumerate(seq):
                 if ev == 'Kall':
                     step += 1; ki = [(1 + (step * 3 + j)) % 10 for j in range(n)]; K[...] = karr[ki[0]] if n == 1 else karr[ki]
@@ -217,6 +217,7 @@ def _histories(shard, ctx, col, des, R, np):
                     if slot is not None: kw = {'at_round': slot[0], 'after_step': slot[1], 'at_des': last}
                     try:
                         got = (des.decrypt if dec else des.encrypt)(B, K, **kw)
+                        held.append((pos, got, np.array(got)))
                     except Exception as e:
                         col.violation('C06/history/raised', 'key form %d %s, call %d of %s: %s: %s' % (kf, shape, pos, list(seq), type(e).__name__, e), case); continue
                     exp = []
@@ -229,6 +230,9 @@ def _histories(shard, ctx, col, des, R, np):
                     if np.asarray(got).shape != exp.shape or not np.array_equal(np.asarray(got), exp):
                         col.violation('C06/history/%s' % ('dec' if dec else 'enc'), 'key form %d %s: call %d (%s) of the sequence %s on the same block/key array objects (rewritten in place between calls) does not return '
                                       'the FIPS 46-3 state for the current array contents: got=%s expected=%s' % (kf, shape, pos, ev, list(seq), np.atleast_2d(got)[-1].tolist(), np.atleast_2d(exp)[-1].tolist()), case)
+            for pos_, arr, snap in held:
+                if not np.array_equal(np.asarray(arr), snap):
+                    col.violation('C06/history/earlier-result-rewritten', 'the array returned by call %d of the sequence %s changed during later calls' % (pos_, list(seq)), {'kind': 'history', 'sequence': list(seq), 'position': pos_}); break
             col.outcomes.add(seq)
     col.sample({'check': 'call histories on reused arrays', 'depth': depth, 'menu': menu}, limit=1)
     if kf != 8: return
